@@ -10,9 +10,17 @@ from ..flow import ForIter, WithEnter, WithExit, call_of
 from .base import RuleAnalysis
 
 
-def canon_lock(e: ast.AST | None) -> str | None:
-    """`self.__lock`, `self.__lock.get()`, `lock_with_timeout(self.__lock.get(), t)` -> "self.__lock"."""
+def canon_lock(e: ast.AST | None, fn=None) -> str | None:
+    """`self.__lock`, `self.__lock.get()`, `lock_with_timeout(self.__lock.get(), t)` -> "self.__lock"; with `fn`, a local that is
+    bound once to such an expression (`lock = self.__lock.get()`) is looked through."""
+    hops = 0
     while True:
+        if fn is not None and isinstance(e, ast.Name) and hops < 3:
+            from .buffers import through_local
+            e2 = through_local(fn, e)
+            if e2 is not e:
+                e, hops = e2, hops + 1
+                continue
         if isinstance(e, ast.Call):
             f = e.func
             if isinstance(f, ast.Attribute) and f.attr == "get" and not e.args:
@@ -68,7 +76,7 @@ class LockHeld(RuleAnalysis):
         if self.site_pred(node, self):
             self.sites.append((node, held))
         if isinstance(node, WithEnter):
-            c = canon_lock(node.item.context_expr)
+            c = canon_lock(node.item.context_expr, self.fn)
             if c in self.locks:
                 self.nested.append((c, held, node))
                 return [held | {c}]
@@ -76,22 +84,22 @@ class LockHeld(RuleAnalysis):
         if call is not None and isinstance(call.func, ast.Attribute):
             recv = dotted(call.func.value)
             if call.func.attr in ("enter_context", "enter_async_context") and recv in self.stacks and call.args:
-                c = canon_lock(call.args[0])
+                c = canon_lock(call.args[0], self.fn)
                 if c in self.locks:
                     self.nested.append((c, held, node))
                     return [held | {f"via:{recv}:{c}"}]
             if call.func.attr == "close" and recv in self.stacks:
                 return [frozenset(x for x in held if not x.startswith(f"via:{recv}:"))]
-            if call.func.attr == "release" and canon_lock(call.func.value) in self.locks:
+            if call.func.attr == "release" and canon_lock(call.func.value, self.fn) in self.locks:
                 self.releases.append(node)
-                return [frozenset(x for x in held if x != canon_lock(call.func.value) and not x.endswith(":" + canon_lock(call.func.value)))]
-            if call.func.attr == "acquire" and canon_lock(call.func.value) in self.locks:
-                return [held | {canon_lock(call.func.value)}]
+                return [frozenset(x for x in held if x != canon_lock(call.func.value, self.fn) and not x.endswith(":" + canon_lock(call.func.value, self.fn)))]
+            if call.func.attr == "acquire" and canon_lock(call.func.value, self.fn) in self.locks:
+                return [held | {canon_lock(call.func.value, self.fn)}]
         return [held]
 
     def with_exit(self, node: WithExit, fact):
         held: frozenset = fact
-        c = canon_lock(node.item.context_expr)
+        c = canon_lock(node.item.context_expr, self.fn)
         if c in self.locks:
             held = held - {c}
         var = node.item.optional_vars.id if isinstance(node.item.optional_vars, ast.Name) else None
